@@ -96,7 +96,7 @@ def check_C06(ctx):
         if o == 'unsupported':
             continue
         ctx.count('capacity:' + kind, line)
-        if o.startswith(('CRASH', 'HARNESS')):
+        if o.startswith(('CRASH', 'HARNESS', 'OOM', 'EXCEPTION')):
             ctx.violate('crash:encw:' + kind, 'writer %s crashed or stored out of bounds: %s -> %s' % (kind, line[:160], o[:200]),
                         {'case': line, 'output': o})
             continue
@@ -176,7 +176,7 @@ def check_C01(ctx):
     outs = run_harness(pool, lines)
     for s, line, o in zip(seqs, lines, outs):
         ctx.count('sequence', line)
-        if o.startswith(('CRASH', 'HARNESS')):
+        if o.startswith(('CRASH', 'HARNESS', 'OOM', 'EXCEPTION')):
             ctx.violate('harness-crash:seq', 'sequence crashed: ' + o[:300], {'case': line, 'output': o})
             continue
         parts = o.split(' | ')
@@ -205,7 +205,7 @@ def check_C01(ctx):
         if o == 'unsupported':
             continue
         ctx.count('pairing-write:' + k, line)
-        f = sx.fields(o) if not o.startswith(('CRASH', 'HARNESS')) else {}
+        f = sx.fields(o) if not o.startswith(('CRASH', 'HARNESS', 'OOM', 'EXCEPTION')) else {}
         if f.get('st') != '0' or f.get('bytes') != r['h']['bytes']:
             ctx.violate('writer:' + k, 'writer %s produced st=%s bytes=%s, expected %s: %s' % (k, f.get('st'), str(f.get('bytes'))[:80], r['h']['bytes'][:80], line[:160]),
                         {'case': line, 'output': o, 'expected': r['h']['bytes']})
@@ -220,7 +220,7 @@ def check_C01(ctx):
         if o == 'unsupported':
             continue
         ctx.count('pairing-read:' + rk, line)
-        f = sx.fields(o) if not o.startswith(('CRASH', 'HARNESS')) else {}
+        f = sx.fields(o) if not o.startswith(('CRASH', 'HARNESS', 'OOM', 'EXCEPTION')) else {}
         if f.get('st') != '0' or not val_eq(f.get('val'), r['h']['dump']) or f.get('consumed') != str(n):
             ctx.violate('reader:' + rk, 'reader %s did not return the written value / byte count: %s -> %s' % (rk, line[:160], o[:200]),
                         {'case': line, 'output': o, 'expected_value': r['h']['dump'], 'expected_consumed': n})
@@ -285,7 +285,7 @@ def check_C05(ctx):
         if o == 'unsupported':
             continue
         ctx.count('cut:' + rk, line)
-        if o.startswith(('CRASH', 'HARNESS')):
+        if o.startswith(('CRASH', 'HARNESS', 'OOM', 'EXCEPTION')):
             ctx.violate('crash:' + rk, 'reader %s crashed on a truncated input: %s -> %s' % (rk, line[:160], o[:300]), {'case': line, 'output': o})
         elif sx.fields(o).get('st') == '0':
             ctx.violate('truncation-accepted:' + rk, 'reader %s accepted a strict prefix (%d of %d bytes): %s' % (rk, k, hexlen(hx), line[:200]),
@@ -362,7 +362,96 @@ def check_C04(ctx):
     return finish_with_proofs(ctx)
 
 
-CHECKS = {'C01': check_C01, 'C03': check_C03, 'C04': check_C04, 'C05': check_C05, 'C06': check_C06}
+# ------------------------------------------------------------------ C02 -----
+def osz(t):
+    """generous LP64 object-size estimate, used only for the allocation bound"""
+    k = t[0]
+    if k == 's': return 8
+    if k == 'str': return 32
+    if k == 'seq':
+        c = t[1]
+        if c[0] == 'vec': return 24
+        if c[0] == 'arr': return c[2] * osz(t[2])
+        return c[2] * osz(t[2]) + 8
+    if k == 'tup': return sum(osz(x) + 8 for x in t[2]) + 8
+    if k == 'wrap': return osz(t[2])
+    if k == 'map': return 112
+    if k == 'opt': return osz(t[1]) + 16
+    if k == 'res': return osz(t[3]) + 16
+    if k == 'var': return max([osz(x) for x in t[1]] + [8]) + 16
+    if k == 'hnd': return 8
+    if k == 'tab': return sum(osz(x) + 16 for _, _, x in t[2]) + 8
+    raise ValueError(t)
+
+
+def alloc_factor(t):
+    return 4 * sum(osz(x) + 64 for x in nopgen.walk(t)) + 128
+
+
+def has_unbounded(t):
+    return any(x[0] == 'seq' and x[1][0] == 'lbuf' and x[1][4] for x in nopgen.walk(t))
+
+
+def check_C02(ctx):
+    proofs_or_violation(ctx, ['Properties_C02.v'])
+    S = CodecStreams(ctx)
+    pool = S.pool
+    encs = [(r['tid'], r['h']['bytes']) for r in S.run_enc()
+            if r['h'] and r['h']['st'] == '0' and not has_unbounded(pool.types[r['tid']])]
+    per = 30 if ctx.quick else 250
+    cases, libcases = [], []
+    for tid, hx in encs:
+        muts = [m for m in mutations(hx, ctx.rng, per * 3) if m[0] in ('inflate', 'trunc', 'byte', 'widen64', 'del', 'ins', 'inc')]
+        ctx.rng.shuffle(muts)
+        infl = [m for m in muts if m[0] == 'inflate'][: per // 2]
+        muts = infl + [m for m in muts if m[0] != 'inflate'][: per - len(infl)]
+        for kind, m in muts:
+            for rk in ('inst', 'binst'):
+                cases.append((tid, rk, m, hx, kind, 'hostile T%d %s %s %s' % (tid, rk, m, hx)))
+            if 'handle' not in pool.caps[tid]:
+                for rk in ('buf', 'ped', 'bbuf', 'bped'):
+                    libcases.append((tid, rk, m, 'decr T%d %s %d %s' % (tid, rk, hexlen(m), m)))
+        for _ in range(4 if ctx.quick else 40):
+            n = ctx.rng.randint(0, 32)
+            m = ''.join('%02x' % ctx.rng.randrange(256) for _ in range(n)) or '-'
+            cases.append((tid, 'inst', m, hx, 'random', 'hostile T%d inst %s %s' % (tid, m, hx)))
+    outs = run_harness(pool, [c[5] for c in cases])
+    mouts = run_driver(pool, ['dec T%d %s' % (c[0], c[2]) for c in cases])
+    broken = []
+    for (tid, rk, m, hx, kind, line), o, mo in zip(cases, outs, mouts):
+        ctx.count('hostile:%s:%s' % (rk, kind), line, nontrivial=not o.startswith('HARNESS'))
+        if o.startswith(('OOM', 'EXCEPTION')):
+            ctx.violate('over-allocation', 'decoding %d input bytes requested more than 256 MiB at once / 1 GiB in total (%s): %s' % (hexlen(m), o[:80], line[:160]),
+                        {'type': type_desc(pool, tid), 'case': line, 'output': o})
+            continue
+        if o.startswith(('CRASH', 'HARNESS', 'OOM', 'EXCEPTION')):
+            ctx.violate('memory-error:' + rk, 'hostile input crashed the reader or tripped a sanitizer: %s -> %s' % (line[:160], o[:400]),
+                        {'type': type_desc(pool, tid), 'case': line, 'output': o})
+            continue
+        f = sx.fields(o)
+        bound = alloc_factor(pool.types[tid]) * (hexlen(m) + 1)
+        if int(f['alloc']) > bound:
+            ctx.violate('over-allocation', 'decoding %d input bytes allocated %s bytes (bound for this type: %d): %s' % (hexlen(m), f['alloc'], bound, line[:160]),
+                        {'type': type_desc(pool, tid), 'case': line, 'output': o, 'bound': bound})
+        if f.get('reuse') != 'ok':
+            ctx.violate('not-reusable', 'after the read the destination could not be read into again like a fresh object: %s -> %s' % (line[:160], o[:300]),
+                        {'type': type_desc(pool, tid), 'case': line, 'output': o})
+        mf = sx.fields(mo)
+        if mf.get('st') != f.get('st'):
+            broken.append({'case': line, 'hraw': o, 'mraw': mo})
+    lo = run_harness(pool, [c[3] for c in libcases])
+    for (tid, rk, m, line), o in zip(libcases, lo):
+        if o == 'unsupported':
+            continue
+        ctx.count('hostile-lib:' + rk, line)
+        if o.startswith(('CRASH', 'HARNESS', 'OOM', 'EXCEPTION')):
+            ctx.violate('memory-error:' + rk, 'hostile input crashed %s or tripped a sanitizer: %s -> %s' % (rk, line[:160], o[:400]),
+                        {'type': type_desc(pool, tid), 'case': line, 'output': o})
+    report_broken(ctx, broken, 'hostile-status', 'Deserializer::Read status = model dec status on hostile input')
+    return finish_with_proofs(ctx, {'alloc_bound_rule': 'bytes passed to operator new during Read <= alloc_factor(type) * (input length + 1), alloc_factor = 4 * sum over reachable types of (object size estimate + 64) + 128'})
+
+
+CHECKS = {'C01': check_C01, 'C02': check_C02, 'C03': check_C03, 'C04': check_C04, 'C05': check_C05, 'C06': check_C06}
 
 
 def run(pid, tier, seed, replay=None):
